@@ -5,6 +5,7 @@ package substrate
 
 import (
 	"fmt"
+	"math"
 	"math/big"
 	"time"
 
@@ -62,6 +63,9 @@ func (c *RawSubstrateConfig) Validate() error {
 	}
 	if c.BlockInterval < 1 {
 		return fmt.Errorf("blockInterval has to be >=1")
+	}
+	if c.SubstrateNetwork < 0 || c.SubstrateNetwork > math.MaxUint16 {
+		return fmt.Errorf("substrateNetwork has to be in range 0-65535")
 	}
 
 	return nil
